@@ -13,26 +13,26 @@ from vf.props.e2e import outcome_label, spec_summary
 
 @st.composite
 def strategy(draw):
-    prof = Profile(vrl='mixed', max_frames=2, max_channels=3, max_rows=30, max_width=6,
+    prof = Profile(vrl='mixed', max_frames=2, max_channels=3, max_rows=40, max_width=6,
                    meta_kinds=('comment', 'zone', 'parameter', 'equipment'), max_meta=3, long_text=2000, noformat=1,
                    nf_payload_max=300, units=False)
     spec = draw(file_specs(prof))
     rows = min(min_rows(lf) for lf in spec['lfs'])
     vrl = spec['sul']['vrl']
-    m = draw(st.integers(0, 5))
+    mode = draw(st.sampled_from(['none', 'one', 'divisor', 'non-divisor', 'non-divisor', 'non-divisor', 'rows', 'beyond']))
     ics = None
-    if m == 1:
+    if mode == 'one':
         ics = 1
-    elif m == 2:
-        divs = [d for d in range(1, rows + 1) if rows % d == 0]
-        ics = draw(st.sampled_from(divs))
-    elif m == 3:
-        ics = draw(st.integers(1, rows))
-    elif m == 4:
+    elif mode == 'divisor':
+        ics = draw(st.sampled_from([d for d in range(1, rows + 1) if rows % d == 0]))
+    elif mode == 'non-divisor':
+        nd = [d for d in range(2, rows) if rows % d]
+        ics = draw(st.sampled_from(nd)) if nd else 1
+    elif mode == 'rows':
         ics = rows
-    elif m == 5:
+    elif mode == 'beyond':
         ics = rows + draw(st.integers(1, 7))
-    m = draw(st.integers(0, 7))
+    m = draw(st.sampled_from([0, 0, 1, 1, 2, 3, 4, 5, 5, 6, 7]))
     ocs = {'abs': vrl}
     if m == 1:
         ocs = {'abs': vrl + draw(st.integers(1, 40))}
